@@ -528,6 +528,17 @@ pub fn cmds_items(a: &Args) {
             out.emit(&ev_items(set, &data, "len"));
         }
     }
+    // strings longer than any radio buffer (the property quantifies over byte strings, not over receptions): every
+    // length 256..=300 and the lengths around the next multiples of 256, random and data-frame shaped (data MHDR,
+    // every FOptsLen), so that a length or offset kept in 8 bits shows
+    for len in (256..=300usize).chain(500..=530).chain(760..=790).chain(1015..=1045) {
+        let data = rnd_bytes(&mut rng, len);
+        out.emit(&ev_frame(&data, "long"));
+        let mut shaped = rnd_bytes(&mut rng, len);
+        shaped[0] = [0x40u8, 0x60, 0x80, 0xA0][len % 4];
+        shaped[5] = (shaped[5] & 0xF0) | (len % 16) as u8;
+        out.emit(&ev_frame(&shaped, "long"));
+    }
     // (d) payload constructors: every length 0..=max+2, three fills
     let mut n_new = 0u64;
     for (set, name) in PAYLOAD_NEW {
